@@ -18,6 +18,36 @@ ENUMS = {
     'claw_decor_place_type': list(BeartypeDecorPlace),
 }
 CLASSES = [VerifError, VerifWarning, int, None, 3]
+from beartype import FrozenDict
+import collections.abc as _cabc
+# values for the two collection-valued options, valid and invalid, picked by index (concrete after pick)
+SKIPS = [(), ('a',), ('a', 'b'), ('b', 'a'), ['a'], {'a'}, frozenset({'a'}), ('a', 1), ('a b',), 3, None, ('a.b',), ('',)]
+# FrozenDict.__or__ calls dict(other): under CrossHair the patched dict() hands back its own mapping
+# shell, for which the C-level dict.__or__ answers NotImplemented.  All values here are concrete, so
+# the real method is simply run with tracing switched off (listed as a stub in the evidence).
+def _untraced(fn):
+    def run(*a, **k):
+        try:
+            from crosshair.tracers import NoTracing, is_tracing
+        except Exception:
+            return fn(*a, **k)
+        if not is_tracing():
+            return fn(*a, **k)
+        with NoTracing():
+            return fn(*a, **k)
+    return run
+
+
+FrozenDict.__or__ = _untraced(FrozenDict.__or__)
+
+# with the numeric tower: overrides of float / complex equal to, or conflicting with, the tower's own
+TOWER_OVS = [BeartypeHintOverrides({}), FrozenDict({float: float | int}), FrozenDict({complex: complex | float | int}),
+             FrozenDict({float: float | int, complex: str}), FrozenDict({complex: str}), FrozenDict({float: str}),
+             FrozenDict({float: float | int, complex: complex | float | int}), FrozenDict({int: str}),
+             FrozenDict({float: str, complex: complex | float | int})]
+TOWER_MAP = {float: float | int, complex: complex | float | int}
+OVS = [BeartypeHintOverrides({}), BeartypeHintOverrides({int: float}), BeartypeHintOverrides({str: bytes}),
+       BeartypeHintOverrides({int: float}), {int: float}, 3, None, FrozenDict({int: float})]
 
 
 def pick(lst, i):
@@ -41,11 +71,34 @@ def valid(opt, v):
         return v is None or (isinstance(v, type) and issubclass(v, Exception))     # None = 'not set'
     if opt == 'warning_cls_on_decorator_exception':
         return v is None or (isinstance(v, type) and issubclass(v, Warning))
+    if opt == 'claw_skip_package_names':
+        # documented: a collection of "."-delimited identifiers; configurations are hashable, so must the collection be
+        try:
+            {v: 0}
+        except TypeError:
+            return False
+        return isinstance(v, _cabc.Collection) and all(
+            isinstance(x, str) and x != '' and all(p.isidentifier() for p in x.split('.')) for x in v)
+    if opt == 'hint_overrides':
+        return isinstance(v, FrozenDict)
     raise KeyError(opt)
 
 
+def jointly_valid(kw):
+    """Cross-option rule (documented): with is_pep484_tower on, an override of float or complex other
+    than the tower's own expansion conflicts."""
+    if kw.get('is_pep484_tower') is True and isinstance(kw.get('hint_overrides'), FrozenDict):
+        ov = kw['hint_overrides']
+        for c in (float, complex):
+            if c in ov and ov[c] != TOWER_MAP[c]:
+                return False
+    return True
+
+
 def same(a, b):
-    """Typed equality: what 'equal keyword arguments' means for a user."""
+    """Typed equality: what 'equal keyword arguments' means for a user (mappings: by content)."""
+    if isinstance(a, FrozenDict) and isinstance(b, FrozenDict):
+        return a == b
     return type(a) is type(b) and (a is b or a == b)
 
 
@@ -66,6 +119,9 @@ def effective(kw):
             full[o] = vt if vt is not None else DEFAULTS[o]
     if full.get('is_color') is None:
         full['is_color'] = DEFAULT_IS_COLOR
+    if full.get('is_pep484_tower') is True and isinstance(full.get('hint_overrides'), FrozenDict):
+        # documented numeric-tower adjustment: the tower's expansions join the overrides
+        full['hint_overrides'] = FrozenDict({**full['hint_overrides'], **TOWER_MAP})
     return full
 
 
@@ -95,7 +151,7 @@ def _check_history(kws):
     made = []
     for kw in kws:
         conf, exc = create(kw)
-        ok = all(valid(o, v) for o, v in kw.items())
+        ok = all(valid(o, v) for o, v in kw.items()) and jointly_valid(kw)
         if ok and conf is None:
             LAST[0] = f'valid kwargs {kw!r} rejected with {type(exc).__name__}: {str(exc)[:120]}'
             return False
@@ -138,15 +194,14 @@ def _check_history(kws):
 _d = BeartypeConf()
 DEFAULTS = {o: getattr(_d, o) for o in BOOL_OPTS + list(ENUMS) +
             ['violation_type', 'violation_door_type', 'violation_param_type', 'violation_return_type',
-             'warning_cls_on_decorator_exception']}
+             'warning_cls_on_decorator_exception', 'claw_skip_package_names', 'hint_overrides', 'is_pep484_tower']}
 DEFAULTS['is_color'] = None
 DEFAULT_IS_COLOR = _d.is_color
 '''
 
 NUM = 'Union[bool, int, None]'
-# is_pep484_tower is left out: with it on, sanification computes `FrozenDict | FrozenDict`, which
-# CrossHair's dict modelling answers with NotImplemented -- a tracing artefact, not beartype's behaviour
-BOOL_OPTS = ['claw_is_pep526', 'is_debug', 'is_pep557_fields', 'is_random', 'is_color']
+# (is_pep484_tower needs FrozenDict.__or__ to run untraced, see SETUP)
+BOOL_OPTS = ['claw_is_pep526', 'is_debug', 'is_pep484_tower', 'is_pep557_fields', 'is_random', 'is_color']
 ENUM_OPTS = {'strategy': 3, 'violation_verbosity': 3, 'claw_decor_place_func': 3, 'claw_decor_place_type': 3}
 CLS_OPTS = ['violation_type', 'violation_door_type', 'violation_param_type', 'violation_return_type',
             'warning_cls_on_decorator_exception']
@@ -230,6 +285,30 @@ def spec_cls_quad(n):
                 warm=['0, 1, 1, 0, 0, 0', '0, 0, 0, 1, 1, 1', '1, 1, 1, 1, 1, 0'], timeout=200 if n == 2 else 600, stubs=False)
 
 
+def spec_coll(a, n, b=None):
+    """Collection-valued option a (claw_skip_package_names / hint_overrides): valid and invalid values
+    by index, two creations, optionally next to a boolean-ish option b."""
+    lst = 'SKIPS' if a == 'claw_skip_package_names' else 'OVS'
+    params = [('i1', 'int'), ('i2', 'int')] + ([('w1', NUM), ('w2', NUM)] if b else [])
+    k1 = f"{{'{a}': pick({lst}, i1)" + (f", '{b}': w1}}" if b else '}')
+    k2 = (f"{{'{b}': w2, " if b else '{') + f"'{a}': pick({lst}, i2)}}"
+    return Spec(f'coll_{a}' + (f'_{b}' if b else ''), params, f'return check_history([{k1}, {k2}])', setup=SETUP,
+                pre=[f'0 <= i1 < {n}', f'0 <= i2 < {n}'] + (_num_pre(['w1', 'w2']) if b else []),
+                warm=['0, 1' + (', True, False' if b else ''), '4, 2' + (', 1, None' if b else '')], timeout=300, stubs=False)
+
+
+def spec_tower():
+    """is_pep484_tower (picked, so concrete) together with hint_overrides that repeat or contradict the
+    tower's own expansions; two creations."""
+    params = [(v, 'int') for v in ('t1', 'o1', 't2', 'o2')]
+    body = ("T = [True, False, 1, None]\n"
+            "return check_history([{'is_pep484_tower': pick(T, t1), 'hint_overrides': pick(TOWER_OVS, o1)}, "
+            "{'hint_overrides': pick(TOWER_OVS, o2), 'is_pep484_tower': pick(T, t2)}])")
+    return Spec('tower_overrides', params, body, setup=SETUP,
+                pre=['0 <= t1 < 4', '0 <= t2 < 4', '0 <= o1 < 9', '0 <= o2 < 9'],
+                warm=['0, 0, 1, 1', '0, 3, 0, 6', '1, 5, 0, 1'], timeout=600, stubs=False)
+
+
 def spec_cls_bool(a, b):
     params = [('i1', 'int'), ('i2', 'int'), ('w1', NUM), ('w2', NUM)]
     body = (f"return check_history([{{'{a}': pick(CLASSES, i1), '{b}': w1}}, {{'{b}': w2, '{a}': pick(CLASSES, i2)}}])")
@@ -245,7 +324,8 @@ def specs(tier, seed=0):
         out = [spec_single('is_debug'), spec_single('is_random'), spec_single('is_color')]
         out += [spec_bool_pair(*pairs[i]) for i in (0, 5)]
         out += [spec_enum('strategy', 'is_debug'), spec_cls('violation_type'), spec_cls('warning_cls_on_decorator_exception'),
-                spec_cls_pair('violation_type', 'violation_door_type'), spec_cls_quad(2)]
+                spec_cls_pair('violation_type', 'violation_door_type'), spec_cls_quad(2),
+                spec_coll('claw_skip_package_names', 13), spec_coll('hint_overrides', 8), spec_tower()]
         return out
     out += [spec_bool_pair(a, b) for a, b in pairs]
     out += [spec_triple(a) for a in BOOL_OPTS]
@@ -257,6 +337,8 @@ def specs(tier, seed=0):
         out.append(spec_cls_pair(a, b))
     out.append(spec_cls_quad(2))
     out.append(spec_cls_quad(3))
+    out += [spec_tower(), spec_coll('claw_skip_package_names', 13), spec_coll('hint_overrides', 8),
+            spec_coll('claw_skip_package_names', 13, 'is_debug'), spec_coll('hint_overrides', 8, 'is_random')]
     for i, a in enumerate(CLS_OPTS):
         out.append(spec_cls(a))
         out.append(spec_cls_bool(a, BOOL_OPTS[i % len(BOOL_OPTS)]))
